@@ -43,27 +43,44 @@ def compile_pass(P, R):
             and s.ev['rhs']['op'] == '&' and s.ev['rhs']['e'].get('k') == 'idx' and on_path(s.ev['rhs']['e'], 'vec') and on_path(s.ev['rhs']['e']['index'], 'used')]
     R.ob('C11.MPT.1', len(vecs) == 1, vecs[0] if vecs else H, 'each rule is stored at index `used` of the new vector', key='append-slot')
     incs = [s for s in H.stores() if s.ev['k'] == 'store' and s.ev.get('op') == '++' and on_path(s.ev['lhs'], 'used')]
+    nexts = [t for t in H.stores() if t.ev['k'] == 'store' and is_var(t.ev.get('lhs')) and is_field(t.ev.get('rhs') or {}, 'next')]
     if vecs:
-        p = H.path_avoiding(vecs[0], lambda t: t in incs, target=vecs[0].bid)
-        loop_ok = len(incs) == 1 and incs[0].bid in H.reach([vecs[0].bid])
-        # from the slot store, every path back to the loop head increments used
-        back = None
-        for s in vecs:
-            back = H.path_avoiding(s, lambda t: t in incs, target=[x for x in H.stores() if (x.ev.get('rhs') or {}).get('k') == 'bin' or True][0].bid) if False else None
-        # simpler: the increment post-dominates the slot store within the loop body
-        nxt = [t for t in H.stores() if t.ev['k'] == 'store' and is_var(t.ev.get('lhs')) and is_field(t.ev.get('rhs') or {}, 'next')]
-        ok = loop_ok
-        # `&vec[used++]`: the step is part of the slot expression itself
-        fused = len(incs) == 1 and any(x.get('k') == 'un' and x.get('op') == '++' and x.get('postfix') and x.get('ev') == incs[0].ev.get('id') for x in walk(vecs[0].ev['rhs']))
-        if fused:
-            ok = True
-        elif nxt:
-            pp = H.path_avoiding(vecs[0], lambda t: t in incs, target=nxt[0].bid)
-            ok = ok and pp is None
+        # between two steps of the walk: a rule entry that was written (any member of the record stored) has been counted
+        # exactly once.  Path-sensitive (a loader helper that refuses a rule returns before it stores anything).
+        def on_event(st, t):
+            stored, inc = st
+            ev = t.ev
+            if t in nexts:
+                return (False, 0)
+            if ev['k'] == 'store' and ev.get('op') == '++' and on_path(ev['lhs'], 'used'):
+                return (stored, min(inc + 1, 2))
+            lhs = ev.get('lhs') or {}
+            if ev['k'] == 'store' and lhs.get('k') == 'mem' and lhs.get('rec') == RULE_REC and const_of(ev.get('rhs')) != 0:
+                return (True, inc)
+            return st
+        before, _, _, bout = H.forward((False, 0), on_event)
+        ok = len(incs) == 1 and bool(nexts)
+        for t in nexts:
+            for st in before.get(t.key, set()):
+                if (st[0] and st[1] != 1) or (not st[0] and st[1] > 1):
+                    ok = False
+        # the pass ends (the old table is released) with the last entry counted as well
+        for t in H.calls('iauth_class_free_rules'):
+            for st in before.get(t.key, set()):
+                if st[0] and st[1] != 1:
+                    ok = False
         R.ob('C11.MPT.1', ok, incs[0] if incs else H, '`used` is incremented exactly once for every rule stored, before the next node is taken', key='append-inc')
     first = [s for s in H.calls('set_first') if on_path(s.ev['args'][0], 'contents')]
-    nexts = [t for t in H.stores() if is_field(t.ev.get('rhs') or {}, 'next')]
-    R.ob('C11.MPT.1', len(first) == 1 and len(nexts) == 1, first[0] if first else H, 'the pass walks the section\'s contents once, from set_first along next', key='walk')
+    # one step per turn: from one step of the walk no other (and not the same one again) is reached without passing the
+    # test of the iterator that heads the loop
+    itv = {t.ev['lhs']['name'] for t in nexts}
+    heads = {bid for bid, b_ in H.blocks.items() if any(is_var(x) and x['name'] in itv for x in walk((b_.get('term') or {}).get('cond') or {}))}
+    one_step = bool(nexts) and len(itv) == 1
+    for t in nexts:
+        seen = H.reach([e.dst for e in H.out[t.bid]], cut_blocks=heads)
+        if any(u.bid in seen and u.bid not in heads for u in nexts):
+            one_step = False
+    R.ob('C11.MPT.1', len(first) == 1 and one_step, first[0] if first else H, 'the pass walks the section\'s contents once, from set_first along next', key='walk')
     # only object nodes become rules; others are skipped
     R.floor('C11.MPT.1', 3)
     return H
@@ -463,6 +480,12 @@ def field_exhaustive(P, R, H, m):
     for s in H.stores():
         if s.ev['k'] == 'store' and s.ev['lhs'].get('k') == 'mem' and s.ev['lhs'].get('rec') == RULE_REC:
             lits = [x['v'] for x in walk(s.ev.get('rhs')) if x.get('k') == 'str']
+            if not lits:
+                # the item was fetched into a local first (`class = item(obj, "class"); ...; rule->class = xstrdup(class)`)
+                for v in sorted(vars_in(s.ev.get('rhs'))):
+                    sd = H.single_def(v)
+                    if sd and isinstance(sd[1], dict):
+                        lits += [x['v'] for x in walk(sd[1]) if x.get('k') == 'str']
             loaded[s.ev['lhs']['field']] = lits
     used = {x['field'] for s in m.sites() for ex in rules.event_exprs(s.ev) for x in walk(ex) if x.get('k') == 'mem' and x.get('rec') == RULE_REC}
     used |= {x['field'] for b in m.blocks.values() for x in walk((b.get('term') or {}).get('cond')) if x.get('k') == 'mem' and x.get('rec') == RULE_REC}
